@@ -6,8 +6,9 @@ import "sync/atomic"
 
 // This file is only compiled with the "verif" build tag. It provides the
 // conformance-checking harness with gates called between two critical
-// sections of one call, outside any lock, which the harness may block to
-// force an interleaving. Nothing here changes behaviour.
+// sections of one call, which the harness may block to force an interleaving
+// of the application, sender and receiver goroutines, and with read-only
+// snapshots of internal state. Nothing here changes behaviour.
 
 type verifGateFn func(site string)
 
@@ -27,4 +28,27 @@ func verifGate(site string) {
 	if f := verifGater.Load(); f != nil {
 		(*f)(site)
 	}
+}
+
+// VerifProcState is a snapshot of the goroutine-level state of a client.
+type VerifProcState struct {
+	Shut     bool
+	ModLen   int
+	DoneLen  int
+	Pending  int
+	SendErrs int
+	ReadErrs int
+}
+
+// VerifProc returns a snapshot of the goroutine-level state of the client.
+func (c *Client) VerifProc() VerifProcState {
+	st := VerifProcState{Shut: c.shut.Load(), ModLen: len(c.qs.modifyCh), DoneLen: len(c.doneCh)}
+	c.qs.pendMu.RLock()
+	if c.qs.pendq != nil {
+		st.Pending = len(c.qs.pendq.Ops)
+	}
+	c.qs.pendMu.RUnlock()
+	se, re := c.hasErrors()
+	st.SendErrs, st.ReadErrs = len(se), len(re)
+	return st
 }
